@@ -43,7 +43,7 @@ theorem C10_panic_sites_justified : Gen.panicSites = [
 
 /-- The `replicate_request` `expect`s are unreachable in the model's terms: a data command that
 did not answer an error had a database selected when the line started. -/
-theorem C10_replicate_needs_selection (fuel : Nat) (n : Node) (sid : Sid) (req : Request) (key : Bytes)
+theorem C10_replicate_needs_selection (fuel : Node → Sid → Bytes → Node × Out) (n : Node) (sid : Sid) (req : Request) (key : Bytes)
     (hreq : req = .get key ∨ req = .getSafe key ∨ req = .remove key ∨ req = .watch key ∨
             (∃ v ver, req = .set key v ver) ∨ (∃ i, req = .increment key i))
     (hd : (n.session sid).db = none) : (n.processObj fuel sid req).2.1.isError = true := by
